@@ -50,7 +50,7 @@ Lemma map_loop_total sep l :
 Proof.
   induction 1 as [|[k v] l [(km & Hk & Hkm) (vm & Hv & Hvm)] _ IH]; intros first ps; simpl; [eauto|].
   simpl in Hk, Hv. subst k v.
-  destruct (Hkm (if first then ps else Print ps sep)) as [ps2 ->].
+  match goal with |- context [rec km ?p] => destruct (Hkm p) as [ps2 ->] end.
   match goal with |- context [rec vm ?p] => destruct (Hvm p) as [ps3 ->] end. apply IH.
 Qed.
 End Generic.
